@@ -289,6 +289,9 @@ package loader
 //@   nopanic[C01,C06]
 //@   requires model != nil && options != nil
 //@   ensures[C06] err == nil ==> !has(model, "include")
+// C06 environment layering: each included file is loaded with exactly the parent environment (which wins) plus the
+// variables of ITS OWN env files -- nothing left over from a sibling include
+//@   callsite[C06] loader.loadYamlModel : (forall k string :: has(config.Environment, k) ==> has(environment, k) || has(envFromFile, k)) && (forall k string :: has(environment, k) ==> has(config.Environment, k) && config.Environment[k] == environment[k])
 
 // C06: exactly services, volumes, networks, secrets and configs are imported.
 // The shape preconditions are what importResource asserts without checking; ApplyInclude calls this on the
